@@ -84,6 +84,7 @@ static void op_putget(int isget)
         }
     } else { for (i = 0; i < nc_; i++) n *= (c[i] > 0 ? (long)c[i] : 0); }
     if (arg("nel")) n = (long)argi("nel", n);
+    if (arg("maxn") && n > argi("maxn", 0)) { OUT(" rc=-99999 skipped=1 n=%ld", n); return; }   /* untrusted shapes (C19): do not let the harness allocate absurd buffers */
     arena_make(&a, mem, n, lay, nc_ > 0 ? nc_ : 0, c, (form == FM_VARM && nim > 0 && !arg("imapnull")) ? im : NULL);
     a.isget = isget;
     if (!isget) arena_fill(&a, arg("vals"), argi("tag", 1), argi("scale", 1));
